@@ -35,6 +35,9 @@ func findIntrinsic(fn *ssa.Function, name string) intrinsic {
 	if realIPString && name == "(net.IP).String" {
 		return nil
 	}
+	if !monoTime && name == "(time.Time).Add" {
+		return nil
+	}
 	if in, ok := intrinsics[name]; ok {
 		if fn.Pkg == nil || !isHarnessPrimName(fn.Name()) {
 			modelsUsed[name]++
